@@ -15,6 +15,9 @@ SOLVERS = {
     'cvc5': ['cvc5', '--lang', 'smt2', '--produce-models', '--incremental'],
 }
 
+LOGIC = os.environ.get('EMIR_Z3_LOGIC', 'QF_UFBV')
+# integer rendering of bit-vector arithmetic (exact wrap-around semantics kept, see sym.node_str_int)
+INT_MODE = os.environ.get('EMIR_INT_MODE', '1') == '1'
 SCRATCH = os.environ.get('EMIR_SMT_DIR', '/verif/.cache/smt')
 
 _tok = re.compile(r'\(|\)|[^\s()]+')
@@ -40,6 +43,10 @@ def _parse_sexprs(text):
 
 
 def _val(tok):
+    if isinstance(tok, str) and tok.isdigit():
+        return int(tok)
+    if isinstance(tok, list) and len(tok) == 2 and tok[0] == '-':
+        return -int(tok[1])
     if tok == 'true':
         return True
     if tok == 'false':
@@ -80,25 +87,47 @@ STATS = Stats()
 
 
 def run_batch(assumptions, goals, solver='z3', timeout=600, want_model=True, label='', keep=False,
-              model_vars=None):
-    """goals: list of Terms. Returns list of (verdict, model|reason)."""
+              model_vars=None, separate=True, par=1, int_mode=None):
+    """goals: list of Terms. Returns list of (verdict, model|reason).
+    separate=True: one non-incremental solver process per goal (z3's QF_BV tactic only applies
+    there; measured 5-20x faster than push/pop on these queries); par = processes in flight."""
     if not goals:
         return []
+    if separate and len(goals) > 1:
+        if par > 1:
+            from concurrent.futures import ThreadPoolExecutor
+            with ThreadPoolExecutor(par) as tp:
+                futs = [tp.submit(run_batch, assumptions, [g], solver, timeout, want_model,
+                                  '%s#%d' % (label, i), keep, model_vars, False, 1, int_mode)
+                        for i, g in enumerate(goals)]
+                return [f.result()[0] for f in futs]
+        return [run_batch(assumptions, [g], solver, timeout, want_model, '%s#%d' % (label, i), keep, model_vars,
+                          False, 1, int_mode)[0] for i, g in enumerate(goals)]
     os.makedirs(SCRATCH, exist_ok=True)
     roots = list(assumptions) + list(goals)
-    lines, names, vars_ = sym.to_smt2(roots)
+    if int_mode is None:
+        int_mode = INT_MODE
+    if int_mode:
+        try:
+            lines, names, vars_ = sym.to_smt2(roots, int_mode=True)
+        except sym.IntModeUnsupported:
+            int_mode = False
+    if not int_mode:
+        lines, names, vars_ = sym.to_smt2(roots)
     if model_vars is None:
         model_vars = vars_
     else:
         have = set(v.tid for v in vars_)
         model_vars = [v for v in model_vars if v.tid in have]
-    script = ['(set-option :produce-models true)', '(set-logic ALL)'] if solver != 'cvc5' else \
-        ['(set-logic QF_UFBV)']
+    logic = 'QF_UFLIA' if int_mode else LOGIC
+    script = ['(set-option :produce-models true)', '(set-logic %s)' % logic]
     script += lines
     for a in assumptions:
         script.append('(assert %s)' % names[a.tid])
+    single = len(goals) == 1
     for i, g in enumerate(goals):
-        script.append('(push 1)')
+        if not single:
+            script.append('(push 1)')
         script.append('(assert %s)' % names[g.tid])
         script.append('(echo "@@goal %d")' % i)
         script.append('(check-sat)')
@@ -108,7 +137,8 @@ def run_batch(assumptions, goals, solver='z3', timeout=600, want_model=True, lab
             for k in range(0, len(model_vars), 50):
                 script.append('(get-value (%s))' % ' '.join(v.args[0] for v in model_vars[k:k + 50]))
         script.append('(echo "@@end %d")' % i)
-        script.append('(pop 1)')
+        if not single:
+            script.append('(pop 1)')
     text = '\n'.join(script) + '\n'
     h = hashlib.sha1(text.encode()).hexdigest()[:12]
     path = os.path.join(SCRATCH, 'q-%s-%d-%s.smt2' % (h, os.getpid(), solver))
@@ -173,7 +203,7 @@ def run_batch(assumptions, goals, solver='z3', timeout=600, want_model=True, lab
             results.append(('sat', model))
         else:
             results.append(('unknown', 'verdict=%r err=%s' % (verdict, err.strip()[:200])))
-    STATS.add(solver, len(goals), dt, len(lines), label, [r[0] for r in results])
+    STATS.add(solver + ('/int' if int_mode else '/bv'), len(goals), dt, len(lines), label, [r[0] for r in results])
     if not keep and all(r[0] != 'unknown' for r in results):
         try:
             os.unlink(path)
